@@ -534,7 +534,7 @@ def run(ck: Check):
                          {k: v for k, v in obj.items() if k not in ("property", "signature", "what", "failing_input_found")})
         elif rc == 2:
             ck.notes.append(f"corpus case {f.name} could not be replayed: {buf.getvalue()[-200:]}")
-    t_end = ck.t0 + (80 if not ck.thorough() else 800)
+    t_end = ck.t0 + (65 if not ck.thorough() else 780)
     cases = CS.all_cases(ck.thorough())
     jcases = joint_cases(ck, cases)
     # fair share of the time budget: 60% for the classes, the rest for joints; one case may use at most 2.5x its share
